@@ -40,16 +40,17 @@ TRUSTED = {
            'assumed in U17 (floats are uninterpreted), checked within scope by BEC C04 (no overflow error for any usize-valued input)',
     'A15': 'A15 a user-supplied WrapAlgorithm::Custom function returns an ordered partition of the words; a WordSplitter::Custom function returns strictly increasing '
            'char boundaries inside the word; a WordSeparator::Custom function returns words that tile the line, with spaces-only whitespace, no penalty and cached widths equal to their display widths (their authors\' obligations; the properties quantify over the built-in separators)',
-    'R16': 'R16 closure conversion: the body of an `iter::from_fn(move || …)` closure is verified as the `next` method of a struct holding the captured variables '
-           '(same tokens, captures prefixed by `self.`); that `collect()` calls `next` until None and keeps the items in order is std behaviour (A4)',
+    'R16': 'R16 closure conversion: the body of an `iter::from_fn(move || …)` closure (and of the `.filter(|x| …)` / `.find(|x| …)` closures of the Unicode word finder) is verified as a method '
+           'of a struct holding the captured variables (same tokens, captures prefixed by `self.`); that `collect()` calls `next` until None and keeps the items in order, and that filter / find '
+           'call their closure on each item in order, is std behaviour (A4)',
     'A16': 'A16 (discharged) IEEE-754 binary64 is exact on small integers (used only for C05\'s "the slow path does what the shortcut does" under first-fit): for usize a, b with a + b < 2^53, '
            'u2f(a) + u2f(b) == u2f(a + b); the conversion usize -> f64 is monotone (a <= b implies not u2f(a) > u2f(b)); u2f(0) == 0.0; and the target is 64-bit (every integer below '
            '2^53 is a usize). Stated as axioms in U17 because Verus has no float theory; DISCHARGED bit-precisely for every pair of usize values by Kani harness K3 (loop-free, full domain; the conversion is taken from the real Fragment accessor Word::width()). What stays assumed is only that Verus\' uninterpreted u2f / fadd / fgt denote the machine operations K3 checks',
-    'A17': 'A17 determinism of the word pipeline: in U11 each restated callee contract (find_words, split_words, break_words, Word::from, WrapAlgorithm::wrap) also says '
+    'A17': 'A17 determinism of the word pipeline: in U11 (and, for the ASCII word finder and wrap_first_fit, in U10) each restated callee contract (find_words, split_words, break_words, Word::from, WrapAlgorithm::wrap) also says '
            '"the result is a function of the argument values" (r == f(args), f uninterpreted). The callees are safe Rust over their arguments with no I/O, randomness or state that '
            'outlives the call (LineNumbers\' RefCell is local to one call), and for find_words (U13, U20), split_points/split_words (U16, U14), break_apart (U15) and wrap_first_fit (U1) '
            'the contracts proved in their own units determine the result uniquely; for optimal-fit it rests on smawk being deterministic, for the Custom variants on their authors (A15). '
-           'Also: str::split is modelled by split_spec, the scan for leftmost non-overlapping occurrences of the separator (that std::str::split computes this is the assumption; '
+           'Also: str::split is modelled by split_spec (= split_scan from position 0), the scan for leftmost non-overlapping occurrences of the separator (that std::str::split computes this is the assumption; '
            'it is checked on the real str::split by the bounded contract A4.std_models); that a text without the separator is one piece and that, for the unbordered separators '
            '"\\n" and "\\r\\n", the pieces of a ++ sep ++ b are those of a followed by those of b are PROVED for that model (split_no_sep, split_concat)',
     'R17': 'R17 RefCell<Vec<usize>> is verified as a plain Vec behind &mut self (LineNumbers): every borrow()/borrow_mut() is a temporary that dies within its own '
@@ -62,7 +63,7 @@ TRUSTED = {
 }
 
 K1 = {'name': 'K1.default', 'file': 'k1_ch_width.rs', 'inject': 'src/core.rs', 'features': 'default', 'quick': True, 'timeout': 600,
-      'harnesses': [{'name': 'k1_ch_width_le_len_utf8'}, {'name': 'k1_space_is_one_column'}, {'name': 'k1_probe_must_fail'}]}
+      'harnesses': [{'name': 'k1_ch_width_le_len_utf8'}, {'name': 'k1_space_is_one_column'}, {'name': 'k1_width_rule'}, {'name': 'k1_probe_must_fail'}]}
 K1MIN = dict(K1, name='K1.no-default-features', features='min')
 K2 = {'name': 'K2.first_fit_n3', 'file': 'k2_first_fit.rs', 'inject': 'src/wrap_algorithms.rs', 'features': 'default', 'quick': False, 'timeout': 1800,
       'harnesses': [{'name': 'k2_first_fit_partition_and_greedy'}], 'bounded': '3 fragments, quarter-integer widths < 4, whitespace/penalty < 2, two line widths < 8'}
@@ -93,8 +94,9 @@ PROPS = {
                        'taken from "each line is measured against the indent it is actually rendered with"); wrap_first_fit is greedy-maximal, so every line with >= 2 fragments '
                        'fits; break_words passes words not wider than the limit through unchanged.',
         'bounded_part': 'BEC: the text-level statement including the single-unbreakable-fragment exception, for every text/option combination in scope.',
-        'explanation': 'Mixed: widths handed to the algorithm, greedy fit and dispatch are proved (Verus); the text-level exception clause depends on the closure-based word '
-                       'finders and is checked by bounded exhaustive enumeration.',
+        'explanation': 'Mixed: widths handed to the algorithm, greedy fit and dispatch are proved (Verus); the text-level statement (display width of each rendered line, with its '
+                       'single-fragment exception) needs display widths to add up over the words of a line — sums over uninterpreted floats, and additivity fails where a word boundary cuts an '
+                       'escape sequence — and is checked by bounded exhaustive enumeration. Known finding KF1 lies in it.',
     },
     'C03': {
         'units': ['U2', 'U23', 'U17', 'U11', 'U24'], 'level': 'other', 'trusted': ['A1', 'A5', 'A6', 'A7', 'A9', 'A11', 'A12', 'A14', 'A17', 'R17', 'R18', 'R19'], 'bec_flavors': ['default'],
@@ -140,7 +142,7 @@ PROPS = {
         'proved_part': 'Verus, all inputs: both algorithms return >= 1 line, the lines\' views concatenate to fragments@, each line is the subrange between consecutive breaks, '
                        'lines are non-empty for non-empty input, exactly one empty line for empty input (optimal-fit: when it returns Ok). The back-pointer table optimal-fit walks has the shape it needs for every cost function: '
                        'smawk::online_column_minima and smawk_inner are verified in U24 on the crate\'s own source (no panic, termination, shape), so the dependency contract that used to be assumed (A6) is a proved one. U17 additionally proves that WrapAlgorithm::wrap (the dispatch used by wrap) hands that partition on, and that the Word accessors are pure functions of the fields.',
-        'bounded_part': 'BEC cross-check with real IEEE floats (negative, fractional, huge), empty width lists, pointer identity of the returned slices.',
+        'bounded_part': 'BEC cross-check by execution with real IEEE floats (negative, fractional, huge) and empty width lists (both also covered by the proof: the contracts quantify over every width list), pointer identity of the returned slices.',
         'explanation': 'Proof: the statement is the postcondition of wrap_first_fit and wrap_optimal_fit, discharged by Verus on the extracted functions; BEC re-checks it by execution.',
     },
     'C07': {
@@ -153,7 +155,8 @@ PROPS = {
                        'restated callee contract A9/A17; the composition itself is not a single Verus obligation).',
         'bounded_part': 'BEC: the same on the real function with real floats; the text-level corollary (wrap == greedy rule over the words cut at split points) end to end on the real crate. '
                         'Thorough tier: Kani K2, bit-precise IEEE-754, 3 fragments with quarter-integer widths (bounded; about 10 min, 13 GB).',
-        'explanation': 'Proof: greedy-maximality is the postcondition of wrap_first_fit (exists breaks. lines_match && greedy), discharged by Verus; BEC re-checks by execution.',
+        'explanation': 'Proof: greedy-maximality is the postcondition of wrap_first_fit (exists breaks. lines_match && greedy), discharged by Verus; the text-level second sentence is the composition '
+                       'of that postcondition with U17\'s and U11\'s (case (a) of DESIGN.md §2.7); BEC re-checks both by execution.',
     },
     'C08': {
         'units': ['U11', 'U22'], 'level': 'proof', 'trusted': ['A3', 'A4', 'A9', 'A12', 'A15', 'A17', 'R15'],
@@ -188,9 +191,12 @@ PROPS = {
         'units': ['U3'], 'level': 'proof', 'kani': [K1, K1MIN], 'trusted': ['A2', 'A3', 'A8', 'A12', 'A13'],
         'proved_part': 'Verus, all inputs: skip_ansi_escape_sequence consumes exactly skip_len (CSI through the first byte in @..~, OSC through BEL or ESC \\, otherwise one char); '
                        'display_width(t) == dw(t@) <= t.len(); lemmas: for every text made of plain chars and well-formed CSI/OSC chunks dw == sum of widths of the stripped text; '
-                       'additive over ESC-free prefixes. Kani (complete, all chars): ch_width(c) <= len_utf8(c).',
-        'bounded_part': 'BEC: every Unicode scalar value against the width tables (exhaustive, both feature sets); strings in scope against an independent implementation; insertion invariance.',
-        'explanation': 'Proof: display_width equals the spec function written from the statement, for all texts (Verus); per-char facts for all chars (Kani, and exhaustive enumeration).',
+                       'additive over ESC-free prefixes, and over any two well-formed texts (dw_concat_wf); inserting a well-formed sequence at any character boundary of a well-formed text '
+                       'changes neither the stripped text nor the width (dw_unchanged_by_inserted_sequence). Kani (complete, every char, both feature sets): ch_width(c) <= len_utf8(c); '
+                       'ch_width(c) is the unicode-width table value (0 where the table has none) with the feature, and 1 below U+1100 / 2 from there on without it (k1_width_rule).',
+        'bounded_part': 'BEC: every Unicode scalar value against the width tables once more (exhaustive, both feature sets); strings in scope against an independent implementation; insertion invariance by execution.',
+        'explanation': 'Proof: display_width equals the spec function written from the statement, for all texts, with additivity and insertion invariance as lemmas over it (Verus); the per-character '
+                       'widths and the byte-length bound for every char (loop-free Kani; the exhaustive scalar enumeration of BEC repeats them).',
     },
     'C11': {
         'units': ['U6', 'U13', 'U3', 'U20'], 'level': 'proof', 'trusted': ['A2', 'A3', 'A4', 'A9', 'A12', 'A13', 'R16'],
@@ -208,7 +214,7 @@ PROPS = {
     },
     'C12': {
         'units': ['U6', 'U14', 'U15', 'U16'], 'level': 'proof', 'trusted': ['A3', 'A4', 'A9', 'A12', 'R15', 'R16'],
-        'proved_part': 'Verus: break_words (at I = Vec) is lossless and the identity when no word is wider than the limit. split_words (U14, both closures after closure '
+        'proved_part': 'Verus: break_words (at I = Vec) is lossless and the identity when no word is wider than the limit. split_words (U14, its closure after closure '
                        'conversion R16), for every word and every list of split points that is strictly increasing and made of char boundaries inside the word: the pieces are '
                        'word[p_(k-1)..p_k], they concatenate to the word, a piece followed by another gets "-" exactly when the text before the cut does not end in \'-\', the last '
                        'piece carries the original whitespace and penalty, every cached width is the display width. Word::break_apart (U15, closure conversion), for every '
@@ -234,7 +240,10 @@ PROPS = {
     'C14': {
         'units': [], 'level': 'exploration', 'trusted': ['A13'],
         'bounded_part': 'BEC only.',
-        'explanation': 'Bounded only: idempotence is relational over two calls of fill; no single-call contract within reach expresses it.',
+        'explanation': 'Bounded only: idempotence is relational over two calls of fill, and the second call runs on a different text; no single-call contract expresses it without a full functional '
+                       'specification of what the four word stages and the line breaker compute (over uninterpreted floats) — wrap\'s functional postcondition (U11) says how they are composed, not what they return. '
+                       'The deductive technique does not apply; the property is claimed at level exploration through its bounded executable contract (the permitted bounded stand-in), never counted as proved. '
+                       'Known finding KF6 lies in it.',
     },
     'C15': {
         'units': ['U4', 'U18'], 'level': 'other', 'trusted': ['A3', 'A4', 'A12'],
@@ -255,7 +264,7 @@ PROPS = {
                        '(indents are prefixes made of prefix characters, no inner line break, line-ending rule).',
         'bounded_part': 'BEC: the equation refill(fill(t, o1), o2) == fill(t, o2 with o1\'s indents) itself, i.e. that unfill inverts fill on C15\'s paragraphs (relational over '
                         'two calls), trailing line ending conversion, independence of the first width.',
-        'explanation': 'Mixed: how refill composes unfill and fill is proved for all inputs; that unfill(fill(t)) gives back t and the indents is relational and bounded.',
+        'explanation': 'Mixed: how refill composes unfill and fill is proved for all inputs; that unfill(fill(t)) gives back t and the indents is relational and bounded. Known finding KF3 lies in the bounded part.',
     },
     'C17': {
         'units': ['U10', 'U1', 'U13'], 'level': 'other', 'trusted': ['A1', 'A3', 'A4', 'A5', 'A9', 'A12', 'R16'],
@@ -282,9 +291,12 @@ PROPS = {
     'C19': {
         'units': ['U8'], 'level': 'proof', 'trusted': ['A3', 'A4', 'A12'],
         'proved_part': 'Verus, all inputs: indent(s, p)@ == indent_spec(s@, p@): the split_terminator pieces mapped by l -> (all_ws(l) ? trim_end(p) : p) ++ l, joined by \\n, '
-                       'final newline re-appended.',
-        'bounded_part': 'BEC cross-check against an independent implementation.',
-        'explanation': 'Proof: the postcondition equates indent with the spec function written from the statement (whitespace predicate and split_terminator are the assumed std contracts).',
+                       'final newline re-appended. The remaining clauses are lemmas over indent_spec (split modelled char by char): indent(s, "") == s (indent_empty_prefix); for a prefix without '
+                       'a newline the lines of the result are the indented lines of s, one for one — same number of lines, newlines in the same places, a final newline kept and none added '
+                       '(indent_keeps_lines, over join_split / split_join_pieces).',
+        'bounded_part': 'BEC cross-check against an independent implementation, every clause again by execution.',
+        'explanation': 'Proof: the postcondition equates indent with the spec function written from the statement (whitespace predicate and split_terminator are the assumed std contracts); '
+                       'the line-count and empty-prefix clauses are proved as lemmas over that function.',
     },
     'C20': {
         'units': ['U5'], 'level': 'proof', 'kani': [K1, K1MIN], 'trusted': ['A2', 'A3', 'A4', 'A11', 'A12', 'R15'],
@@ -300,3 +312,39 @@ PROPS = {
                        'that layout for well-formed texts; for texts with an unterminated escape sequence it is false of the pinned code and recorded as KF7.',
     },
 }
+
+# what each unit (and Kani harness) rests on; a property's `trusted` list is the union over its units and harnesses, plus whatever
+# its own entry names in addition (e.g. A13 for the BEC oracles)
+UNIT_TRUSTED = {
+    'U1': ['A1', 'A5', 'A12'],
+    'U2': ['A1', 'A5', 'A6', 'A7', 'A9', 'A11', 'A12'],
+    'U3': ['A2', 'A3', 'A4', 'A8', 'A12'],
+    'U4': ['A3', 'A4', 'A12'],
+    'U5': ['A2', 'A3', 'A4', 'A9', 'A11', 'A12', 'R15'],
+    'U6': ['A3', 'A4', 'A9', 'A12', 'R15'],
+    'U8': ['A3', 'A4', 'A12'],
+    'U9': ['A3', 'A4', 'A12'],
+    'U10': ['A1', 'A3', 'A4', 'A5', 'A9', 'A10', 'A12', 'A17'],
+    'U11': ['A3', 'A4', 'A9', 'A10', 'A12', 'A15', 'A17', 'R15'],
+    'U12': ['A3', 'A4', 'A9', 'A12', 'R15'],
+    'U13': ['A3', 'A4', 'A9', 'A12', 'R16'],
+    'U14': ['A3', 'A4', 'A9', 'A12', 'A15', 'R15', 'R16'],
+    'U15': ['A3', 'A4', 'A9', 'A12', 'R16'],
+    'U16': ['A3', 'A4', 'A12', 'A15'],
+    'U17': ['A1', 'A5', 'A9', 'A12', 'A14', 'A15', 'A16'],
+    'U18': ['A3', 'A4', 'A9', 'A12'],
+    'U20': ['A3', 'A4', 'A9', 'A12', 'A13', 'R16'],
+    'U21': ['A3', 'A4', 'A9', 'A12', 'R15'],
+    'U22': ['A3', 'A4', 'A12', 'R15'],
+    'U23': ['A3', 'A7', 'A12', 'R17'],
+    'U24': ['A3', 'A4', 'A6', 'A12', 'R18', 'R19'],
+    'K1': ['A2'], 'K2': ['A1'], 'K3': ['A16'],
+}
+_ORDER = ['A%d' % i for i in range(1, 18)] + ['R15', 'R16', 'R17', 'R18', 'R19']
+for _pid, _cfg in PROPS.items():
+    _t = set(_cfg.get('trusted', []))
+    for _u in _cfg.get('units', []):
+        _t |= set(UNIT_TRUSTED[_u])
+    for _k in _cfg.get('kani', []):
+        _t |= set(UNIT_TRUSTED[_k['name'].split('.')[0]])
+    _cfg['trusted'] = sorted(_t, key=_ORDER.index)
